@@ -172,7 +172,11 @@ func (en *engine) reportCfg(c *ev.Case, clause string, p *probe, o *outcome, cfg
 			if p.hasErr {
 				det["bind_error"] = p.bindErr
 			}
-			e.Violation(c, clause+"|"+site+"|preset-"+which+"|"+p.hdrs.where()+"|"+cls,
+			det["manner"] = cls
+			det["binder_entry"] = site
+			// one signature per source: where the header was set, the entry point and the way the
+			// value came out wrong are details of the same cause
+			e.Violation(c, clause+"|"+sourceName[p.src]+"|preset-"+which+"|not-bound-as-sent",
 				fmt.Sprintf("client -> %s -> Bind().%s fails (%s) when the application has also set %s at %s", sourceName[p.src], opTitle(p.op), m, which, p.hdrs.where()), det)
 			return
 		}
